@@ -77,6 +77,7 @@ type SchedSpec struct {
 	Decisions   []int   `json:"decisions,omitempty"` // explicit choices (index into the sorted parked set)
 	Policy      string  `json:"policy"`              // random | fifo | lifo | starve | burst
 	RecordP     float64 `json:"recordp"`             // probability that a completed output record is a yield point
+	OpP         float64 `json:"opp,omitempty"`       // probability that a write inside a record (one field, one fill character) is a yield point
 	Overlap     []int   `json:"overlap,omitempty"`   // decision indices at which k>=2 runs are released together
 	OverlapK    int     `json:"overlapk,omitempty"`
 	Race        bool    `json:"race,omitempty"`      // needs the -race worker
